@@ -159,6 +159,8 @@ impl Db {
             Index::create_in_ram(schema)
         } else {
             let (index_rebuild, index) = open_index(&config)?;
+            #[cfg(anything_verif)]
+            crate::verif::crash_point(4);
             rebuild = rebuild || index_rebuild;
             index
         };
@@ -198,7 +200,11 @@ impl Db {
             log::info!("rebuilding search index at {}", config.index_path.display());
 
             let mut writer = db.index.writer(50_000_000)?;
+            #[cfg(anything_verif)]
+            crate::verif::crash_point(10);
             writer.delete_all_documents()?;
+            #[cfg(anything_verif)]
+            crate::verif::crash_point(11);
 
             for name in config.assets() {
                 if name == SOURCES_BIN_GZ {
@@ -211,14 +217,25 @@ impl Db {
                 }
             }
 
+            #[cfg(anything_verif)]
+            crate::verif::crash_point(12);
+
             writer.commit()?;
+            #[cfg(anything_verif)]
+            crate::verif::crash_point(13);
             db.reader.reload()?;
+            #[cfg(anything_verif)]
+            crate::verif::crash_point(14);
 
             config.meta.version = Some(config.this_version.to_owned());
             config.meta.database_hash = Some(hash);
 
             if !in_memory {
+                #[cfg(anything_verif)]
+                crate::verif::crash_point(15);
                 config.write_meta()?;
+                #[cfg(anything_verif)]
+                crate::verif::crash_point(16);
             }
         }
 
@@ -284,9 +301,15 @@ fn open_index(config: &crate::config::Config) -> Result<(bool, Index)> {
     if config.index_path.is_dir() {
         log::info!("removing index: {}", config.index_path.display());
         fs::remove_dir_all(&config.index_path)?;
+        #[cfg(anything_verif)]
+        crate::verif::crash_point(1);
     }
 
+    #[cfg(anything_verif)]
+    crate::verif::crash_point(2);
     fs::create_dir_all(&config.index_path)?;
+    #[cfg(anything_verif)]
+    crate::verif::crash_point(3);
     let schema = build_schema();
     Ok((true, Index::create_in_dir(&config.index_path, schema)?))
 }
